@@ -11,6 +11,8 @@ import ScyllaVerif.Model.SerializedValuesC03
 * `token <cdc 0|1> <wire> <values…>` → `pk=… tok=… key=…`
 * `ptoken <cdc 0|1> <values…>`   → `calculate_token_for_partition_key`
 * `svnth <n1,n2,…> <values…>`    → the results of successive `nth(n_i)` calls on one `SerializedValues::iter()`
+* `sesspart schema=<0|1> seed=<s>` → the implementation's line (snapshot + operations) with the results recomputed by
+  `preparedPartitioner` / `boundCalculateToken` / `clusterComputeTokenChecked`
 * `pname <hex utf-8 name | N>`   → `parsed=<from_str> selected=<partitioner after unwrap_or_default>`
 Value syntax: hex, `-` (empty), `N` (null), `U` (unset), `z<len>x<hh>` (`len` bytes, byte `i` = `hh + 7 i mod 256`). -/
 namespace ScyllaVerif.Drive.C03
@@ -66,6 +68,84 @@ def lexLe (a b : PkIndex) : Bool := a.index < b.index || (a.index == b.index && 
 
 def cdcFlag (s : String) : Option Bool :=
   if s == "0" then some false else if s == "1" then some true else none
+
+/-! `sesspart`: the implementation's line carries the session's metadata snapshot and, per operation, its inputs and
+its results; the model recomputes the results from the snapshot and the inputs and prints the line again. -/
+
+def bytesOf (s : String) : List UInt8 := s.toUTF8.toList
+
+/-- `ks.table:pkcols:partitioner-hex|N` -/
+def parseSnapEntry (e : String) : Option (List UInt8 × List UInt8 × Nat × Option (List UInt8)) :=
+  match e.splitOn ":" with
+  | [qual, pk, part] =>
+    match qual.splitOn ".", pk.toNat? with
+    | [ks, t], some n =>
+      if part == "N" then some (bytesOf ks, bytesOf t, n, none)
+      else (parseHex part).map (fun p => (bytesOf ks, bytesOf t, n, some p))
+    | _, _ => none
+  | _ => none
+
+def insertTable {α : Type} (ks t : List UInt8) (a : α) :
+    List (List UInt8 × List (List UInt8 × α)) → List (List UInt8 × List (List UInt8 × α))
+  | [] => [(ks, [(t, a)])]
+  | (k, ts) :: rest => if k == ks then (k, ts ++ [(t, a)]) :: rest else (k, ts) :: insertTable ks t a rest
+
+def parseVals (s : String) : Option (List RawValue) :=
+  if s.startsWith "many" then
+    ((String.ofList (s.toList.drop 4)).toNat?).map (fun n => List.replicate n (.value [1]))
+  else (s.splitOn ",").mapM parseValue
+
+def showTok : Except TokenErr (Option Int64) → String
+  | .ok (some t) => s!"ok:{t}"
+  | .ok none => "none"
+  | .error (.extraction (.noPkIndexValue i c)) => s!"err:noPk:{i}:{c}"
+  | .error (.extraction .panic) => "panic"
+  | .error (.valueTooLong n) => s!"err:tooLong:{n}"
+  | .error .serialization => "err:serialization"
+
+def showCtok : Except ClusterTokenErr Int64 → String
+  | .ok t => s!"ok:{t}"
+  | .error .unknownTable => "err:unknownTable"
+  | .error .serialization => "err:serialization"
+  | .error (.valueTooLong n) => s!"err:tooLong:{n}"
+
+def sesspartOp (schemaP : SchemaSnapshot) (schemaT : TableSnapshot) (op : String) : String :=
+  match words op with
+  | ["prep", ks, t, wire, vals, _part, _tok] =>
+    match parseNatList wire, parseVals vals with
+    | some w, some values =>
+      let part := preparedPartitioner (some (bytesOf ks, bytesOf t)) schemaP
+      let cdc := part == .cdc
+      let tok := boundCalculateToken cdc (pkIndexesOfWire w) values
+      let ps := match part with | .cdc => "cdc" | .murmur3 => "murmur3"
+      s!"prep {ks} {t} {wire} {vals} {ps} {showTok tok}"
+    | _, _ => "bad-op"
+  | ["ctok", ks, t, types, key, _res] =>
+    match cdcFlag types, parseVals key with
+    | some typesOk, some values =>
+      s!"ctok {ks} {t} {types} {key} {showCtok (clusterComputeTokenChecked typesOk schemaT (bytesOf ks) (bytesOf t) values)}"
+    | _, _ => "bad-op"
+  | _ => "bad-op"
+
+def sesspart (impl : String) : String :=
+  if impl.startsWith "e2e-skip" then impl
+  else
+    match impl.splitOn " ; " with
+    | [] => "bad-line"
+    | head :: ops =>
+      match words head with
+      | [schema, snap] =>
+        if !snap.startsWith "snap=" then "bad-line"
+        else
+          let entries := String.ofList (snap.toList.drop 5)
+          let parsed := if entries == "-" then some [] else (entries.splitOn ",").mapM parseSnapEntry
+          match parsed with
+          | none => "bad-line"
+          | some es =>
+            let schemaP : SchemaSnapshot := es.foldl (fun acc (ks, t, _, p) => insertTable ks t p acc) []
+            let schemaT : TableSnapshot := es.foldl (fun acc (ks, t, n, p) => insertTable ks t ⟨n, p⟩ acc) []
+            " ; ".intercalate (s!"{schema} {snap}" :: ops.map (sesspartOp schemaP schemaT))
+      | _ => "bad-line"
 
 def run (case impl : String) : String :=
   match words case with
@@ -148,8 +228,10 @@ def run (case impl : String) : String :=
           | .done => go rest [] ("none" :: acc)
           | .panic => ("panic" :: acc).reverse
           | .item v buf' => go rest buf' (showV v :: acc)
-      " ".intercalate (go ks (ScyllaVerif.SerializedValuesC03.encodeValues values) [])
+      let buf := ScyllaVerif.SerializedValuesC03.encodeValues values
+      " ".intercalate (go ks buf []) ++ " buf=" ++ toHex (be16 values.length ++ buf)
     | _, _ => "bad-case"
+  | "sesspart" :: _ => sesspart impl
   | ["pname", name] =>
     let showP : PartitionerName → String := fun p => match p with | .murmur3 => "murmur3" | .cdc => "cdc"
     if name == "N" then s!"parsed=none selected={showP (selectPartitioner none)}"
